@@ -2201,7 +2201,7 @@ size_t ZSTD_decompressBlock_deprecated(ZSTD_DCtx* dctx,
     ZSTD_checkContinuity(dctx, dst, dstCapacity);
     dSize = ZSTD_decompressBlock_internal(dctx, dst, dstCapacity, src, srcSize, not_streaming);
     FORWARD_IF_ERROR(dSize, "");
-    dctx->previousDstEnd = (char*)dst + dSize;
+    if (dstCapacity > 0) dctx->previousDstEnd = (char*)dst + dSize;   /* capacity 0 : ZSTD_checkContinuity() ignored this address */
     return dSize;
 }
 
